@@ -412,7 +412,12 @@ func (pg *progGen) startFork(g *Graph, stID string) {
 	if !pg.opts.StartFork || pg.inOr > 0 || pg.inLoop > 0 || pg.inAnd > 0 || pg.d.N(3) != 2 {
 		return
 	}
+	// the side task runs concurrently with everything else: what it writes is not "certainly written before"
+	// any condition, so it offers no variable to the data-dependent conditions
+	dc := pg.opts.DataConds
+	pg.opts.DataConds = false
 	t := pg.newTask(g)
+	pg.opts.DataConds = dc
 	g.connect(pg.defs, stID, t.ID, nil, -1)
 	e := g.addNode(&Node{ID: pg.defs.fresh("SFE"), Kind: "end"})
 	g.connect(pg.defs, t.ID, e.ID, nil, -1)
